@@ -449,8 +449,8 @@ def pending_chain(P, pk, subst, name):
     if name is None or name not in subst:
         return False, "send_statuses object is not a bound local"
     b = subst[name]
-    if not (is_expr(b) and b[0].startswith("bind")):
-        return False, "object is not a structured binding"
+    if not (is_expr(b) and (b[0].startswith("bind") or (b[0] == "." and len(b) == 3 and b[2] in ("std::pair::first", "std::pair::second")))):
+        return False, "object is not a structured binding / pair member of the selected entry"
     it = [x for x in subexprs(b) if x[0] == "local"]
     if len(it) != 1 or it[0][1] not in subst:
         return False, "binding source is not a single-definition iterator"
